@@ -38,6 +38,11 @@ def bogus_comparisons():
                             exp = 'pep440'
                         if exp:
                             out.append(('%s %s %s' % (l, op, r), exp))
+    # long quoted texts with multi-byte characters around the 64- / 128- / 256-byte marks (whatever a message does with an overlong value)
+    for n in (61, 62, 63, 64, 125, 126, 127, 253, 254, 255):
+        long_text = 'x' * n + 'é€😀é€😀'
+        out += [("python_version >= '%s'" % long_text, 'pep440'), ("'%s' < python_full_version" % long_text, 'pep440'), ("implementation_version in '3.8 %s'" % long_text, 'pep440'),
+                ("extra < '%s'" % long_text, 'extrainvalid')]
     out += [("python_version ~= '3'", 'pep440'), ("python_version > '3.*'", 'pep440'), ("python_full_version in '3.8 x'", 'pep440'),
             ("'3.8.*' == python_version", 'pep440')]
     return list(dict.fromkeys(out))
